@@ -394,7 +394,7 @@ theorem step_nonmarker {s : State} (hT : s.missingTerm ≠ 0) (r : Nat) {e : Ele
   | far => exact absurd rfl hf
   | item a => simp only [step, hT, if_false]; cases s.pending <;> simp
   | ts a t => simp only [step, hT, if_false]; cases s.pending <;> simp
-  | flushBatch => simp [step, hT]
+  | flushBatch => simp only [step, hT, if_false]; cases s.pending <;> simp
   | wm t =>
     simp only [step, hT, if_false]
     rcases hu : s.frontier.update r t with ⟨f, o⟩
@@ -606,6 +606,24 @@ theorem noIdleTimeout_ofElems (arr : List (Nat × Elem α)) (sp : InSt) :
 
 /-! ### the master induction -/
 
+/-- a receive timeout keeps the combined invariant; its output is the fake `FlushBatch`, preceded by
+    the pending announcement if there is one -/
+theorem inv_timeout {s : State} {sp : InSt} (inv : Inv s sp) (hT : s.missingTerm ≠ 0) :
+    Inv (step s (Arrival.timeout : Arrival α)).1 sp ∧
+    (step s (Arrival.timeout : Arrival α)).1.missingTerm ≠ 0 ∧
+    ∃ pre, (step s (Arrival.timeout : Arrival α)).2 = pre ++ [.flushBatch] ∧
+      (pre = [] ∨ ∃ p, pre = [.wm p]) := by
+  obtain ⟨outW, rel⟩ := inv.rel
+  obtain ⟨_, hmt, rel'⟩ := timeout_ok (α := α) rel hT
+  have hn : (step s (Arrival.timeout : Arrival α)).1.n = s.n := by
+    simp only [step, hT, if_false]; cases s.pending <;> rfl
+  refine ⟨⟨⟨_, rel'⟩, ?_, inv.spec⟩, by rw [hmt]; exact hT, ?_⟩
+  · have := inv.relT; unfold RelT at *; rw [hmt, hn]; exact this
+  · simp only [step, hT, if_false]
+    cases s.pending with
+    | none => exact ⟨[], rfl, Or.inl rfl⟩
+    | some p => exact ⟨[.wm p], rfl, Or.inr ⟨p, rfl⟩⟩
+
 theorem master (as : List (Arrival α)) : ∀ (s : State) (sp : InSt),
     Inv s sp → s.missingTerm ≠ 0 → inputOkFrom sp (elemsOf as) = true →
     sp.completed + farCount (outs s as) = (inStateAfter sp (elemsOf as)).completed ∧
@@ -626,30 +644,38 @@ theorem master (as : List (Arrival α)) : ∀ (s : State) (sp : InSt),
     rw [outs_cons]
     cases a with
     | timeout =>
-      have hst : step s (Arrival.timeout : Arrival α) = (s, [.flushBatch]) := by simp [step, hT]
-      rw [hst]
+      obtain ⟨inv', hT', pre0, hout, hpre0⟩ := inv_timeout (α := α) inv hT
+      have hfree0 : ∀ x ∈ (step s (Arrival.timeout : Arrival α)).2, x ≠ Elem.term ∧ x ≠ Elem.far := by
+        intro x hx
+        rw [hout] at hx
+        rcases hpre0 with h | ⟨p, h⟩ <;> subst h <;> simp at hx
+        · rw [hx]; exact ⟨(by intro h'; cases h'), (by intro h'; cases h')⟩
+        · rcases hx with hx | hx <;> rw [hx] <;> exact ⟨(by intro h'; cases h'), (by intro h'; cases h')⟩
+      have hfc : farCount (step s (Arrival.timeout : Arrival α)).2 = 0 := by
+        rw [hout]; rcases hpre0 with h | ⟨p, h⟩ <;> subst h <;> simp [farCount, Elem.isFar]
+      have hga : ∀ g, gAfter g (step s (Arrival.timeout : Arrival α)).2 = false := by
+        intro g; rw [hout]; rcases hpre0 with h | ⟨p, h⟩ <;> subst h <;> simp [gAfter]
       simp only [elemsOf] at hok ⊢
-      obtain ⟨h1, h2, h3⟩ := ih s sp inv hT hok
+      obtain ⟨h1, h2, h3⟩ := ih _ sp inv' hT' hok
       refine ⟨?_, ?_, ?_⟩
-      · rw [farCount_append]; simpa [farCount, Elem.isFar] using h1
+      · rw [farCount_append, hfc]; simpa using h1
       · intro hc
         obtain ⟨⟨pre, hpre, hfree⟩, hg⟩ := h2 hc
-        refine ⟨⟨.flushBatch :: pre, by simp [hpre], ?_⟩, ?_⟩
+        refine ⟨⟨(step s (Arrival.timeout : Arrival α)).2 ++ pre, by simp [hpre], ?_⟩, ?_⟩
         · intro x hx
-          rcases List.mem_cons.mp hx with h | h
-          · rw [h]; intro h'; cases h'
+          rcases List.mem_append.mp hx with h | h
+          · exact (hfree0 x h).1
           · exact hfree x h
         · intro g _ hno
           simp only [noIdleTimeout, Bool.and_eq_true, Bool.not_eq_true'] at hno
-          rw [grammarGo_append_termfree g [.flushBatch] _ (by intro x hx; simp at hx; rw [hx]; intro h'; cases h')]
-          simp only [gAfter]
+          rw [grammarGo_append_termfree g _ _ (fun x hx => (hfree0 x hx).1), hga]
           apply hg false ?_ hno.2
           intro hi hc'
           have := hno.1
           simp [hi, hc'] at this
       · intro hc x hx
         rcases List.mem_append.mp hx with h | h
-        · simp at h; rw [h]; intro h'; cases h'
+        · exact (hfree0 x h).1
         · exact h3 hc x h
     | elem r e =>
       simp only [elemsOf, inputOkFrom] at hok
@@ -796,12 +822,13 @@ theorem far_positions (as : List (Arrival α)) : ∀ (s : State) (sp : InSt) (i 
     rw [runFrom_cons, farIdx_append, farIdx_tag]
     cases a with
     | timeout =>
-      have hst : step s (Arrival.timeout : Arrival α) = (s, [.flushBatch]) := by simp [step, hT]
-      rw [hst]
+      obtain ⟨inv', hT', pre0, hout, hpre0⟩ := inv_timeout (α := α) inv hT
+      have hfc : farCount (step s (Arrival.timeout : Arrival α)).2 = 0 := by
+        rw [hout]; rcases hpre0 with h | ⟨p, h⟩ <;> subst h <;> simp [farCount, Elem.isFar]
       simp only [elemsOf] at hok
       simp only [completionIdx]
-      rw [ih s sp (i + 1) inv hT hok]
-      simp [farCount, Elem.isFar]
+      rw [ih _ sp (i + 1) inv' hT' hok, hfc]
+      simp
     | elem r e =>
       simp only [elemsOf, inputOkFrom] at hok
       cases hs : inStep sp r e with
